@@ -243,6 +243,11 @@ func (ms MatrixSetup) MarshalYAML() (any, error) {
 
 // UnmarshalOrdered unmarshals from either []any or *ordered.MapSA.
 func (ms *MatrixSetup) UnmarshalOrdered(o any) error {
+	if o == nil {
+		// `setup: null`, which is how a matrix without any setup dimensions is
+		// marshalled to JSON. There are no dimensions to add.
+		return nil
+	}
 	if *ms == nil {
 		*ms = make(MatrixSetup)
 	}
